@@ -17,7 +17,7 @@ Request:  run <flag 0|1> <path absent|file|dir|lfile|ldir|dangling|loop> <excs> 
          | nt 0|1 B LATE | hnt k 0|1 B LATE | ec B (with ctxt: B, the same object again) | sw B (try/except-pass)
          acc  = `-` or k,k,…      rais = `-` or k>k',…
 Reply (blank separated):
-  out=ok|R:<who> tb=<tags> cause=-|N|<who> log=-|<who>/<tags>;… path=… ctx=<reraise>:<type>:<value>:<tags>
+  out=ok|R:<who> tb=<tags> cause=-|N|<who> log=-|<who>/<tags>@<S|I>;…  (S: the scenario's logger, I: the library's internal default logger) path=… ctx=<reraise>:<type>:<value>:<tags>
   tbs=<tags>|<tags>|…          (final traceback of every declared exception)
   chain=<cause>/<suppress>|…   (final __cause__ / __suppress_context__ of every declared exception)
 -/
@@ -179,7 +179,8 @@ def showRes (n : Nat) (r : Res) : String :=
     | .ok => "out=ok tb=- cause=-"
     | .raised e => s!"out=R:{showWho n h e} tb={showTb (h.tb e)} cause={showOptWho n h (h.cause e)}"
   let log := if r.st.log.isEmpty then "-" else
-    String.intercalate ";" (r.st.log.map fun l => s!"{showOptWho n h l.value}/{showTb l.tb}")
+    String.intercalate ";" (r.st.log.map fun l =>
+      s!"{showOptWho n h l.value}/{showTb l.tb}@{match l.sink with | .scenario => "S" | .library => "I"}")
   let ty := match r.ctx.type_ with
     | none => "N" | some c => showCls c
   let ctx := s!"{if r.ctx.reraise then 1 else 0}:{ty}:{showOptWho n h r.ctx.value}:{showTb r.ctx.tb}"
